@@ -286,6 +286,35 @@ pub fn run(run: &Run) {
             judge(run, "trapezoid/unit-spacing", guard(|| trapezoid(&y, None, None)), want, 0.0, &|| format!("trapezoid(y={:?})", y));
         });
     }
+    // abscissae that are uniform up to a drift or a jitter of 1e-3 .. 1e-12 relative ("non-uniform" all the
+    // same: the integral of the interpolant uses the actual spacings), and grids with one odd spacing
+    {
+        let mut grids: Vec<(String, Vec<f64>)> = Vec::new();
+        for &n in &[3usize, 4, 10, 100, 1000, 2001] {
+            for &eps in &[1e-3, 1e-5, 5e-7, 1e-7, 1e-9, 1e-12] {
+                grids.push((format!("drift {:e}, {} points", eps, n), (0..n).map(|i| i as f64 * 0.001 * (1.0 + eps * i as f64 / n as f64)).collect()));
+                grids.push((format!("jitter {:e}, {} points", eps, n), (0..n).map(|i| (i as f64 + if i % 2 == 1 { eps } else { 0.0 }) * 0.25 + 3.0).collect()));
+            }
+            grids.push((format!("one wide cell, {} points", n), (0..n).map(|i| i as f64 + if i >= n / 2 { 7.5 } else { 0.0 }).collect()));
+            grids.push((format!("equal end cells, {} points", n), (0..n).map(|i| if i == 0 { 0.0 } else if i == n - 1 { n as f64 - 1.0 } else { 1.0 + (i as f64 - 1.0) * (n as f64 - 3.0) / (n as f64 - 2.0).max(1.0) * 0.9 + 0.05 * (n as f64 - 3.0) }).collect()));
+        }
+        grids.par_iter().for_each(|(name, x)| {
+            let n = x.len();
+            if x.windows(2).any(|w| !(w[1] > w[0])) {
+                return;
+            }
+            for pat in 0..2 {
+                let y: Vec<f64> = (0..n).map(|i| if pat == 0 { 1.0 + (i % 5) as f64 } else { ((i * 5) % 7) as f64 - 3.0 + 0.001 * i as f64 }).collect();
+                run.case();
+                run.nontrivial(1);
+                let want = (1..n).map(|i| DD::new((y[i] + y[i - 1]) / 2.0) * (DD::new(x[i]) - DD::new(x[i - 1]))).fold(DD::ZERO, |a, b| a + b).f();
+                let scale: f64 = (1..n).map(|i| ((y[i] + y[i - 1]) / 2.0 * (x[i] - x[i - 1])).abs()).sum();
+                let xmag = x.iter().fold(0.0f64, |a, b| a.max(b.abs()));
+                let ymag = y.iter().fold(0.0f64, |a, b| a.max(b.abs()));
+                judge(run, "trapezoid/nearly-uniform-x", guard(|| trapezoid(&y, Some(x), None)), want, 4.0 * n as f64 * U * (scale + xmag * ymag) + 1e-300, &|| format!("trapezoid(y pattern {}, x = {})", pat, name));
+            }
+        });
+    }
     let maxlen = run.tier.pick(300usize, 10_000usize);
     let lens: Vec<usize> = if run.thorough() { (2..=1100).chain([2047, 2048, 2049, 2050, 4096, 4097, 8193, 10_000]).collect() } else { (2..=maxlen).chain([511, 512, 513, 1000, 1023, 1024, 1025, 1026, 2048, 2049, 4097, 10_000]).collect() };
     lens.par_iter().for_each(|&n| {
